@@ -559,9 +559,11 @@ class MADDPG(MultiAgentRLAlgorithm):
         """
         states, actions, rewards, next_states, dones = experiences
 
+        # (in the order of agent_ids, in which the critics' inputs are stacked)
         actions = {
-            agent_id: agent_actions.to(self.device)
-            for agent_id, agent_actions in actions.items()
+            agent_id: actions[agent_id].to(self.device)
+            for agent_id in self.agent_ids
+            if agent_id in actions
         }
         rewards = {
             agent_id: agent_rewards.to(self.device)
